@@ -591,12 +591,19 @@ func regexpQuote(s string) string {
 }
 
 // Schema renders the schema JSON text.
-func (s Shape) Schema() string {
+func (s Shape) Schema() string { return s.SchemaWith(s.transformDecls()) }
+
+// FinalOutputXPath is the xpath the shape puts on FINAL_OUTPUT ("" when none).
+func (s Shape) FinalOutputXPath() string { return s.finalOutputXPath() }
+
+// SchemaWith renders the schema with caller-supplied transform_declarations (the caller is responsible
+// for FINAL_OUTPUT and its xpath; see FinalOutputXPath).
+func (s Shape) SchemaWith(transformDecls map[string]interface{}) string {
 	ps := obj{"version": "omni.2.1", "file_format_type": s.Format}
 	if s.Encoding != "" {
 		ps["encoding"] = s.Encoding
 	}
-	doc := obj{"parser_settings": ps, "transform_declarations": s.transformDecls()}
+	doc := obj{"parser_settings": ps, "transform_declarations": transformDecls}
 	if fd := s.fileDecl(); fd != nil {
 		doc["file_declaration"] = fd
 	}
